@@ -228,7 +228,7 @@ theorem en_U {s : State} {o x} (h : enabled s (.U o x) = true) : x = .queuedLoca
 theorem en_fork {s : State} {n f} (h : enabled s (.fork n f) = true) :
     s.phase ≠ .crashed ∧ n < s.nodes.length ∧ (s.forksOf n).contains f = false ∧
     (s.phase = .normal → nodeDone s n = false ∧ s.cachedOf n ≠ .running) := by
-  simp [enabled, guards, and_assoc] at h
+  simp [enabled, guards] at h
   obtain ⟨a, b, c, d⟩ := h
   refine ⟨a, b, by simpa using c, fun hp => ?_⟩
   rcases d with d | d
